@@ -650,6 +650,108 @@ class ForwardTemps:
         return True
 
 
+# ------------------------------------------------------------------------------------------- D11 class dispatch through a value
+def _dispatch_leaves(e):
+    """[(conds, leaf)] of a conditional-expression chain"""
+    if isinstance(e, ast.IfExp):
+        return [([(e.test, True)] + c, l) for c, l in _dispatch_leaves(e.body)] + [([(e.test, False)] + c, l) for c, l in _dispatch_leaves(e.orelse)]
+    return [([], e)]
+
+
+class DispatchSplit:
+    """x = A if c1 else (B if c2 else None); REST      ==>     if c1: x = A; REST  elif c2: x = B; REST  else: x = None; REST
+    for chains whose leaves are classes (or None): the choice of a codec class by a table becomes the choice of a branch."""
+
+    def __init__(self, class_names):
+        self.class_names = class_names
+
+    def run(self, tree):
+        changed = False
+        for fn in [n for n in ast.walk(tree) if isinstance(n, ast.FunctionDef)]:
+            for _ in range(3):
+                if not self._once(fn):
+                    break
+                changed = True
+        return changed
+
+    def _is_cls(self, l):
+        return (isinstance(l, ast.Name) and l.id in self.class_names) or (isinstance(l, ast.Attribute) and isinstance(l.value, ast.Name) and l.value.id in self.class_names)
+
+    def _branch_assigned(self, st):
+        """name assigned a class in every non-exiting branch of an if/elif chain, or None"""
+        from .normalize import always_exits
+        names = set()
+        cur = st
+        n_cls = 0
+        while True:
+            for body in (cur.body,):
+                if always_exits(body):
+                    continue
+                if len(body) == 1 and isinstance(body[0], ast.Assign) and len(body[0].targets) == 1 and isinstance(body[0].targets[0], ast.Name) and self._is_cls(body[0].value):
+                    names.add(body[0].targets[0].id)
+                    n_cls += 1
+                else:
+                    return None
+            if len(cur.orelse) == 1 and isinstance(cur.orelse[0], ast.If):
+                cur = cur.orelse[0]
+                continue
+            if cur.orelse and not always_exits(cur.orelse):
+                b = cur.orelse
+                if len(b) == 1 and isinstance(b[0], ast.Assign) and len(b[0].targets) == 1 and isinstance(b[0].targets[0], ast.Name) and self._is_cls(b[0].value):
+                    names.add(b[0].targets[0].id)
+                    n_cls += 1
+                else:
+                    return None
+            elif not cur.orelse:
+                return None  # falling through without the name bound
+            break
+        return next(iter(names)) if len(names) == 1 and n_cls >= 2 else None
+
+    def _sink(self, st, rest):
+        from .normalize import always_exits
+        cur = st
+        while True:
+            if not always_exits(cur.body):
+                cur.body = cur.body + copy.deepcopy(rest)
+            if len(cur.orelse) == 1 and isinstance(cur.orelse[0], ast.If):
+                cur = cur.orelse[0]
+                continue
+            if cur.orelse and not always_exits(cur.orelse):
+                cur.orelse = cur.orelse + copy.deepcopy(rest)
+            break
+
+    def _once(self, fn):
+        for owner, fld in list(_blocks(fn)):
+            stmts = getattr(owner, fld)
+            for i, st in enumerate(stmts):
+                # if c1: x = A  elif c2: x = B  else: raise ;  REST      ==>   REST sunk into the branches
+                if isinstance(st, ast.If) and stmts[i + 1:] and len(stmts[i + 1:]) <= 12 and not getattr(st, "_sunk", False):
+                    x = self._branch_assigned(st)
+                    if x is not None and any(isinstance(n, ast.Name) and n.id == x for s_ in stmts[i + 1:] for n in ast.walk(s_)):
+                        self._sink(st, stmts[i + 1:])
+                        st._sunk = True
+                        setattr(owner, fld, stmts[:i + 1])
+                        return True
+                if not (isinstance(st, ast.Assign) and len(st.targets) == 1 and isinstance(st.targets[0], ast.Name) and isinstance(st.value, ast.IfExp)):
+                    continue
+                leaves = _dispatch_leaves(st.value)
+                cls_leaves = [l for _, l in leaves if self._is_cls(l)]
+                if len(cls_leaves) < 2 or not all(self._is_cls(l) or (isinstance(l, ast.Constant) and l.value is None) for _, l in leaves):
+                    continue
+                rest = stmts[i + 1:]
+                if len(rest) > 12 or any(isinstance(x, ast.Call) for c, _ in leaves for t, _ in c for x in ast.walk(t)):
+                    continue
+
+                def build(e):
+                    if isinstance(e, ast.IfExp):
+                        return [ast.copy_location(ast.If(test=e.test, body=build(e.body), orelse=build(e.orelse)), st)]
+                    return [ast.copy_location(ast.Assign(targets=[copy.deepcopy(st.targets[0])], value=e, lineno=st.lineno), st)] + copy.deepcopy(rest)
+
+                setattr(owner, fld, stmts[:i] + build(st.value))
+                return True
+        return False
+
+
 # ------------------------------------------------------------------------------------------- driver
 def desugar_module(tree: ast.Module):
     MatchToIf().visit(tree)
